@@ -168,8 +168,13 @@ def real_invalid_trials(kind, obj, dump, plants):
             old = fo.read()
         good = old
         for label, plant, restore in plants:
-            for existing in (True, False, "stream", "pathlike"):
+            for existing in (True, False, "stream", "pathlike", "crlf", "not-text"):
                 old = good
+                if existing == "crlf":
+                    # the last good copy is whatever is there - as another tool, another platform or an older version left it
+                    old = good.replace(b"\n", b"\r\n") + b"\r"
+                elif existing == "not-text":
+                    old = b"\xff\xfe\x00" + good + b"\x00\x1a"
                 if existing == "stream":
                     # the caller hands over the destination file itself, opened for update (not truncated): the last good copy
                     # is whatever the file holds
@@ -199,7 +204,8 @@ def real_invalid_trials(kind, obj, dump, plants):
                 trials += 1
                 if raised is None:
                     continue            # whether the value must be refused is C06's question, not this property's
-                where = "%s real invalid value %s (%s) %s" % (kind, label, type(raised).__name__, {True: "existing", False: "absent", "pathlike": "existing, spelled as a pathlib.Path"}.get(existing, "existing, handed over as an open stream"))
+                where = "%s real invalid value %s (%s) %s" % (kind, label, type(raised).__name__, {True: "existing", False: "absent", "pathlike": "existing, spelled as a pathlib.Path", "crlf": "existing, with CR LF line ends",
+                                                                                                    "not-text": "existing, holding bytes that are no text"}.get(existing, "existing, handed over as an open stream"))
                 if existing:
                     check(os.path.exists(dest), "destination-removed-by-failed-dump", "%s: the destination is gone" % where)
                     with open(dest, "rb") as fo:
@@ -208,7 +214,7 @@ def real_invalid_trials(kind, obj, dump, plants):
                 else:
                     check(not os.path.exists(dest), "file-created-by-failed-dump", "%s: a file was created" % where)
                 check(sorted(os.listdir(tmp)) == (["metadata"] if existing else []), "stray-file", "%s: %r" % (where, sorted(os.listdir(tmp))))
-                units.append("real:%s/%s" % (label, {True: "e", False: "a", "pathlike": "p"}.get(existing, "s")))
+                units.append("real:%s/%s" % (label, {True: "e", False: "a", "pathlike": "p", "crlf": "c", "not-text": "b"}.get(existing, "s")))
     finally:
         shutil.rmtree(tmp, ignore_errors=True)
     return units, trials
